@@ -115,10 +115,10 @@ struct Extra {
     ar_n: u16,
 }
 
-const EDNS_NAMES: [&str; 16] = [
+const EDNS_NAMES: [&str; 17] = [
     "none", "v0", "v1", "v255", "v0-payload0", "v0-payload512", "v0-payload65535", "v0-do", "v0-unknown-option",
     "v0-nsid", "two-opts-v0-v0", "two-opts-v0-v1", "opt-in-answer", "opt-v1-in-authority", "opt-owner-not-root",
-    "v0-option-overruns",
+    "v0-option-overruns", "v0-extended-rcode-bits-set-in-request",
 ];
 
 fn edns_variant(i: usize) -> Extra {
@@ -156,6 +156,7 @@ fn edns_variant(i: usize) -> Extra {
         }
         14 => ar(rr(&name_wire("o."), 41, 1232, 0, &[]), &mut e),
         15 => ar(opt_rr(1232, 0, 0, false, &[0, 10, 0, 9, 1, 2]), &mut e),
+        16 => ar(opt_rr(1232, 1, 0, false, &[]), &mut e),
         _ => unreachable!(),
     }
     e
@@ -266,12 +267,26 @@ struct Z {
     axfr: bool,
     /// ZoneType::Secondary instead of Primary
     secondary: bool,
-    /// handler chain: 0 = [zone], 1 = [skip, zone], 2 = [skip, skip, zone], 3 = [zone, skip]
+    /// handler chain: 0 = [zone], 1 = [skip, zone], 2 = [skip, skip, zone], 3 = [zone, skip],
+    /// 4 = [skip] (nobody answers), 5 = [break-with-REFUSED, zone], 6 = [continue-with-NXDOMAIN, zone]
     chain: u8,
+    /// ZoneType::External (what a forwarder zone is): the catalog builds the response with
+    /// `build_forwarded_response`
+    external: bool,
+}
+
+impl Z {
+    /// the statement fixes what a query enclosed by this zone gets
+    fn judged(&self) -> bool {
+        !self.external && self.chain < 4
+    }
 }
 
 const fn z(origin: &'static str) -> Z {
-    Z { origin, axfr: false, secondary: false, chain: 0 }
+    Z { origin, axfr: false, secondary: false, chain: 0, external: false }
+}
+const fn zc(origin: &'static str, chain: u8) -> Z {
+    Z { origin, axfr: false, secondary: false, chain, external: false }
 }
 
 struct Shape {
@@ -284,7 +299,7 @@ struct Shape {
 /// Shapes 0..N_BASE_SHAPES are crossed with the big request products; the others (one deviating
 /// configuration dimension each) are driven by family FS.
 const N_BASE_SHAPES: usize = 10;
-const SHAPES: [Shape; 15] = [
+const SHAPES: [Shape; 18] = [
     Shape { what: "{z.}", zones: &[z("z.")], nsid: false },
     Shape { what: "{z., a.z.}", zones: &[z("z."), z("a.z.")], nsid: false },
     Shape { what: "{z., a.z., a.a.z.}", zones: &[z("z."), z("a.z."), z("a.a.z.")], nsid: false },
@@ -292,27 +307,38 @@ const SHAPES: [Shape; 15] = [
     Shape { what: "{.}", zones: &[z(".")], nsid: false },
     Shape { what: "{., z.}", zones: &[z("."), z("z.")], nsid: false },
     Shape { what: "{}", zones: &[], nsid: false },
-    Shape { what: "{z. = [skip-all, in-memory]}", zones: &[Z { origin: "z.", axfr: false, secondary: false, chain: 1 }], nsid: false },
+    Shape { what: "{z. = [skip-all, in-memory]}", zones: &[zc("z.", 1)], nsid: false },
     Shape { what: "{., a.z.}", zones: &[z("."), z("a.z.")], nsid: false },
     Shape { what: "{z., a.a.z.}", zones: &[z("z."), z("a.a.z.")], nsid: false },
     // ---- one deviating dimension each (family FS)
     Shape {
         what: "{z., a.z.} zone transfers allowed",
-        zones: &[Z { origin: "z.", axfr: true, secondary: false, chain: 0 }, Z { origin: "a.z.", axfr: true, secondary: false, chain: 0 }],
+        zones: &[Z { origin: "z.", axfr: true, secondary: false, chain: 0, external: false }, Z { origin: "a.z.", axfr: true, secondary: false, chain: 0, external: false }],
         nsid: false,
     },
     Shape { what: "{Z., A.z., A.a.Z.} origins configured in upper/mixed case", zones: &[z("Z."), z("A.z."), z("A.a.Z.")], nsid: false },
     Shape {
         what: "{z., a.z.} secondary zones",
-        zones: &[Z { origin: "z.", axfr: false, secondary: true, chain: 0 }, Z { origin: "a.z.", axfr: false, secondary: true, chain: 0 }],
+        zones: &[Z { origin: "z.", axfr: false, secondary: true, chain: 0, external: false }, Z { origin: "a.z.", axfr: false, secondary: true, chain: 0, external: false }],
         nsid: false,
     },
     Shape {
         what: "{z. = [skip, skip, in-memory], a.z. = [in-memory, skip]}",
-        zones: &[Z { origin: "z.", axfr: false, secondary: false, chain: 2 }, Z { origin: "a.z.", axfr: false, secondary: false, chain: 3 }],
+        zones: &[zc("z.", 2), zc("a.z.", 3)],
         nsid: false,
     },
     Shape { what: "{., z.} with NSID configured", zones: &[z("."), z("z.")], nsid: true },
+    Shape { what: "{z. = [skip] (no handler answers), a.z.}", zones: &[zc("z.", 4), z("a.z.")], nsid: false },
+    Shape {
+        what: "{z. external (forwarder-type), a.z. primary}",
+        zones: &[Z { origin: "z.", axfr: false, secondary: false, chain: 0, external: true }, z("a.z.")],
+        nsid: false,
+    },
+    Shape {
+        what: "{z. = [break with REFUSED, in-memory], a.z. = [continue with NXDOMAIN, in-memory], b.z.}",
+        zones: &[zc("z.", 5), zc("a.z.", 6), z("b.z.")],
+        nsid: false,
+    },
 ];
 
 struct Acl {
@@ -346,34 +372,35 @@ const BASE_ACLS: [(&str, &[&str], &[&str], &str); N_BASE_ACLS] = [
 ];
 
 /// The access PRODUCT: 6 sources x (deny list, allow list) with each list any subset of <= 3
-/// elements (quick: <= 2) of a 10-element net alphabet chosen relative to the source: its own
+/// elements (quick: <= 2) of a 12-element net alphabet chosen relative to the source: its own
 /// host net, covering nets of its own family, the nets the source would match under a WRONG
 /// family reading (v4 reading of a v6 source, v6 reading of a v4 source), catch-alls and unrelated
 /// nets of both families.
-const ACCESS_SOURCES: [(&str, [&str; 10]); 6] = [
+const ACCESS_NETS: usize = 12;
+const ACCESS_SOURCES: [(&str, [&str; ACCESS_NETS]); 6] = [
     (
         "192.0.2.1",
-        ["192.0.2.1/32", "192.0.2.0/24", "192.0.0.0/8", "::ffff:0:0/96", "::ffff:192.0.2.1/128", "::192.0.2.1/128", "::/0", "0.0.0.0/0", "198.51.100.0/24", "2001:db8:ffff::/48"],
+        ["192.0.2.1/32", "192.0.2.0/24", "192.0.0.0/8", "::ffff:0:0/96", "::ffff:192.0.2.1/128", "::192.0.2.1/128", "::/0", "0.0.0.0/0", "198.51.100.0/24", "2001:db8:ffff::/48", "192.0.2.0/31", "192.0.2.2/31"],
     ),
     (
         "::ffff:192.0.2.1",
-        ["192.0.2.1/32", "192.0.2.0/24", "192.0.0.0/8", "::ffff:0:0/96", "::ffff:192.0.2.1/128", "::192.0.2.1/128", "::/0", "0.0.0.0/0", "198.51.100.0/24", "2001:db8:ffff::/48"],
+        ["192.0.2.1/32", "192.0.2.0/24", "192.0.0.0/8", "::ffff:0:0/96", "::ffff:192.0.2.1/128", "::192.0.2.1/128", "::/0", "0.0.0.0/0", "198.51.100.0/24", "2001:db8:ffff::/48", "192.0.2.0/31", "192.0.2.2/31"],
     ),
     (
         "::1",
-        ["::1/128", "::/64", "::/96", "0.0.0.1/32", "0.0.0.0/8", "127.0.0.0/8", "::/0", "0.0.0.0/0", "198.51.100.0/24", "2001:db8:ffff::/48"],
+        ["::1/128", "::/64", "::/96", "0.0.0.1/32", "0.0.0.0/8", "127.0.0.0/8", "::/0", "0.0.0.0/0", "198.51.100.0/24", "2001:db8:ffff::/48", "::/127", "::2/127"],
     ),
     (
         "::192.0.2.1",
-        ["::192.0.2.1/128", "::/64", "::/96", "192.0.2.1/32", "192.0.2.0/24", "::ffff:192.0.2.1/128", "::/0", "0.0.0.0/0", "198.51.100.0/24", "2001:db8:ffff::/48"],
+        ["::192.0.2.1/128", "::/64", "::/96", "192.0.2.1/32", "192.0.2.0/24", "::ffff:192.0.2.1/128", "::/0", "0.0.0.0/0", "198.51.100.0/24", "2001:db8:ffff::/48", "::c000:200/127", "::c000:202/127"],
     ),
     (
         "2001:db8::1",
-        ["2001:db8::1/128", "2001:db8::/64", "2001:db8::/32", "::/96", "0.0.0.1/32", "::ffff:0:0/96", "::/0", "0.0.0.0/0", "198.51.100.0/24", "2001:db8:ffff::/48"],
+        ["2001:db8::1/128", "2001:db8::/64", "2001:db8::/32", "::/96", "0.0.0.1/32", "::ffff:0:0/96", "::/0", "0.0.0.0/0", "198.51.100.0/24", "2001:db8:ffff::/48", "2001:db8::/127", "2001:db8::2/127"],
     ),
     (
         "fe80::1",
-        ["fe80::1/128", "fe80::/64", "fe80::/10", "254.128.0.0/16", "0.0.0.1/32", "::ffff:0:0/96", "::/0", "0.0.0.0/0", "198.51.100.0/24", "2001:db8:ffff::/48"],
+        ["fe80::1/128", "fe80::/64", "fe80::/10", "254.128.0.0/16", "0.0.0.1/32", "::ffff:0:0/96", "::/0", "0.0.0.0/0", "198.51.100.0/24", "2001:db8:ffff::/48", "fe80::/127", "fe80::2/127"],
     ),
 ];
 
@@ -399,7 +426,7 @@ fn acl_table() -> &'static AclTable {
             .collect();
         let mut subsets: Vec<Vec<usize>> = vec![];
         for k in 0..=3 {
-            subsets.extend(vcore::enumerate::combinations(10, k));
+            subsets.extend(vcore::enumerate::combinations(ACCESS_NETS, k));
         }
         let mut quick_end = 0;
         for pass in 0..2 {
@@ -492,6 +519,8 @@ fn acls() -> &'static [Acl] {
 /// A zone handler that declines every request (chained-handler configurations).
 struct SkipAll {
     origin: LowerName,
+    /// 0 = skip every request, 1 = break the chain with REFUSED, 2 = continue with NXDOMAIN
+    mode: u8,
 }
 
 #[async_trait::async_trait]
@@ -512,7 +541,13 @@ impl ZoneHandler for SkipAll {
         _request_info: Option<&RequestInfo<'_>>,
         _lookup_options: LookupOptions,
     ) -> LookupControlFlow<AuthLookup> {
-        LookupControlFlow::Skip
+        use hickory_proto::op::ResponseCode;
+        use hickory_server::zone_handler::LookupError;
+        match self.mode {
+            0 => LookupControlFlow::Skip,
+            1 => LookupControlFlow::Break(Err(LookupError::ResponseCode(ResponseCode::Refused))),
+            _ => LookupControlFlow::Continue(Err(LookupError::ResponseCode(ResponseCode::NXDomain))),
+        }
     }
     async fn nsec_records(&self, _name: &LowerName, _lookup_options: LookupOptions) -> LookupControlFlow<AuthLookup> {
         LookupControlFlow::Skip
@@ -529,7 +564,11 @@ impl ZoneHandler for SkipAll {
         Result<hickory_server::zone_handler::ZoneTransfer, hickory_server::zone_handler::LookupError>,
         Option<hickory_proto::rr::TSigResponseContext>,
     )> {
-        None
+        match self.mode {
+            0 => None,
+            // what the trait's default implementation answers
+            _ => Some((Err(hickory_server::zone_handler::LookupError::from(hickory_proto::op::ResponseCode::NotImp)), None)),
+        }
     }
     fn nx_proof_kind(&self) -> Option<&NxProofKind> {
         None
@@ -540,23 +579,39 @@ impl ZoneHandler for SkipAll {
 }
 
 fn build_zone(spec: &Z, owners: &[Name]) -> InMemoryZoneHandler<TokioRuntimeProvider> {
+    build_zone_gen(spec, owners, 1)
+}
+
+/// Generation `gen` of a zone: SOA serial = gen, and from generation 2 on every TXT marker carries a
+/// second string `gen=<gen>` (family FC replaces zones in a live catalog).
+fn build_zone_gen(spec: &Z, owners: &[Name], gen: u32) -> InMemoryZoneHandler<TokioRuntimeProvider> {
     let o = Name::from_str(spec.origin).unwrap();
     let marker = format!("zone={}", spec.origin.to_ascii_lowercase());
     let mut zone = InMemoryZoneHandler::<TokioRuntimeProvider>::empty(
         o.clone(),
-        if spec.secondary { ZoneType::Secondary } else { ZoneType::Primary },
+        if spec.external {
+            ZoneType::External
+        } else if spec.secondary {
+            ZoneType::Secondary
+        } else {
+            ZoneType::Primary
+        },
         if spec.axfr { AxfrPolicy::AllowAll } else { AxfrPolicy::Deny },
         None,
     );
     let ns = Name::from_str("ns.o.").unwrap();
     zone.upsert_mut(
-        Record::from_rdata(o.clone(), 300, RData::SOA(SOA::new(ns.clone(), Name::from_str("h.o.").unwrap(), 1, 1, 1, 1, 300))),
-        1,
+        Record::from_rdata(o.clone(), 300, RData::SOA(SOA::new(ns.clone(), Name::from_str("h.o.").unwrap(), gen, 1, 1, 1, 300))),
+        gen,
     );
     zone.upsert_mut(Record::from_rdata(o.clone(), 300, RData::NS(NS(ns))), 1);
     for owner in owners {
         if o.zone_of(owner) {
-            zone.upsert_mut(Record::from_rdata(owner.clone(), 300, RData::TXT(TXT::new(vec![marker.clone()]))), 1);
+            let mut strings = vec![marker.clone()];
+            if gen > 1 {
+                strings.push(format!("gen={gen}"));
+            }
+            zone.upsert_mut(Record::from_rdata(owner.clone(), 300, RData::TXT(TXT::new(strings))), gen);
         }
     }
     zone
@@ -594,7 +649,7 @@ fn labels_of(s: &str) -> fd::Labels {
     s.split('.').filter(|l| !l.is_empty()).map(|l| l.as_bytes().to_vec()).collect()
 }
 
-type ZoneCache = std::collections::HashMap<(&'static str, bool, bool), Arc<InMemoryZoneHandler<TokioRuntimeProvider>>>;
+type ZoneCache = std::collections::HashMap<(&'static str, bool, bool, bool), Arc<InMemoryZoneHandler<TokioRuntimeProvider>>>;
 
 /// The zones are never modified (the in-memory handler answers UPDATE with NOTIMP), so one zone
 /// object per zone spec is shared by all catalogs of a worker.
@@ -603,14 +658,17 @@ fn build_srv(world: &World, zones: &mut ZoneCache, shape: usize, acl: usize) -> 
     let ac = &acls()[acl];
     let mut catalog = Catalog::new();
     for spec in sh.zones.iter() {
-        let zone = zones.entry((spec.origin, spec.axfr, spec.secondary)).or_insert_with(|| Arc::new(build_zone(spec, &world.owners))).clone();
+        let zone = zones.entry((spec.origin, spec.axfr, spec.secondary, spec.external)).or_insert_with(|| Arc::new(build_zone(spec, &world.owners))).clone();
         let lname = LowerName::new(&Name::from_str(spec.origin).unwrap());
-        let skip = || -> Arc<dyn ZoneHandler> { Arc::new(SkipAll { origin: lname.clone() }) };
+        let stub = |mode: u8| -> Arc<dyn ZoneHandler> { Arc::new(SkipAll { origin: lname.clone(), mode }) };
         let chain: Vec<Arc<dyn ZoneHandler>> = match spec.chain {
             0 => vec![zone],
-            1 => vec![skip(), zone],
-            2 => vec![skip(), skip(), zone],
-            _ => vec![zone, skip()],
+            1 => vec![stub(0), zone],
+            2 => vec![stub(0), stub(0), zone],
+            3 => vec![zone, stub(0)],
+            4 => vec![stub(0)],
+            5 => vec![stub(1), zone],
+            _ => vec![stub(2), zone],
         };
         catalog.upsert(lname, chain);
     }
@@ -624,6 +682,7 @@ fn build_srv(world: &World, zones: &mut ZoneCache, shape: usize, acl: usize) -> 
     );
     let cfg = fd::Config {
         zones: sh.zones.iter().map(|z| labels_of(&z.origin.to_ascii_lowercase())).collect(),
+        unjudged: sh.zones.iter().map(|z| !z.judged()).collect(),
         deny: ac.deny.iter().map(|s| fd::Net::parse(s)).collect(),
         allow: ac.allow.iter().map(|s| fd::Net::parse(s)).collect(),
     };
@@ -663,10 +722,20 @@ fn exec(rt: &tokio::runtime::Runtime, srv: &Srv, bytes: &[u8], proto: Protocol) 
 /// As `exec`, with the request coming from `src` (the server object itself has no source: the
 /// access lists are evaluated per request).
 fn exec_from(rt: &tokio::runtime::Runtime, srv: &Srv, src: SocketAddr, bytes: &[u8], proto: Protocol) -> Result<Vec<Vec<u8>>, vcore::PanicInfo> {
+    exec_on(rt, &srv.server, src, bytes, proto)
+}
+
+fn exec_on<T: hickory_server::server::RequestHandler>(
+    rt: &tokio::runtime::Runtime,
+    server: &Server<T>,
+    src: SocketAddr,
+    bytes: &[u8],
+    proto: Protocol,
+) -> Result<Vec<Vec<u8>>, vcore::PanicInfo> {
     catch(|| {
         rt.block_on(async {
             let (handle, mut rx) = BufDnsStreamHandle::new(src);
-            srv.server.verif_handle_raw_request(SerialMessage::new(bytes.to_vec(), src), proto, handle).await;
+            server.verif_handle_raw_request(SerialMessage::new(bytes.to_vec(), src), proto, handle).await;
             let mut out = vec![];
             // the sender half was moved into the call and is dropped by now
             while let Some(m) = rx.next().await {
@@ -942,6 +1011,23 @@ fn judge(cfg: &fd::Config, src: SocketAddr, req: &[u8], out: &[Vec<u8>], l: &mut
     if (r[2] >> 3) & 0xf != e.opcode {
         obs(l, "obs:response-opcode-differs-from-request", req, out);
     }
+    // header bits the statement does not mention (RFC 1035 4.1.1: RD is copied; RFC 4035 3.2.2: CD)
+    if e.opcode == 0 {
+        if (req[2] & 0x01) != (r[2] & 0x01) {
+            l.outcome("obs:rd-not-copied-into-response");
+        }
+        if (req[3] & 0x10) != (r[3] & 0x10) {
+            l.outcome("obs:cd-not-copied-into-response");
+        }
+        if r[3] & 0x40 != 0 {
+            l.outcome("obs:z-bit-set-in-response");
+        }
+    }
+    if let (Some(q), Ok(rq)) = (&e.question, &v.question) {
+        if !q.has_pointer && v.qd == 1 && req.get(12..q.end) != r.get(12..rq.end) {
+            l.outcome("obs:question-echo-not-octet-identical");
+        }
+    }
     let hick = Message::from_vec(r);
     if hick.is_err() {
         obs(l, "obs:hickory-cannot-decode-response", req, out);
@@ -1137,14 +1223,27 @@ fn fu_signer(name: &str, key: &[u8]) -> TSigner {
 
 /// Catalog {z. = SqliteZoneHandler(allow_update, AXFR for signed requests, key k1.), a.z. =
 /// in-memory}. The updatable zone is built afresh for every case (it is modified).
-fn build_fu_srv(w: &mut Worker, acl: usize) -> Srv {
+fn build_fu_srv(w: &mut Worker, acl: usize, policy: usize) -> Srv {
     let ac = &acls()[acl];
     // (the wrapped in-memory zone allows transfers: the SqliteZoneHandler's own policy decides)
-    let spec_z = Z { origin: "z.", axfr: true, secondary: false, chain: 0 };
+    let spec_z = Z { origin: "z.", axfr: true, secondary: false, chain: 0, external: false };
     let spec_az = z("a.z.");
-    let mut h = SqliteZoneHandler::<TokioRuntimeProvider>::new(build_zone(&spec_z, &w.world.owners), AxfrPolicy::AllowSigned, true, false);
-    h.set_tsig_signers(vec![fu_signer("k1.", FU_KEY1)]);
-    let az = w.zones.entry((spec_az.origin, false, false)).or_insert_with(|| Arc::new(build_zone(&spec_az, &w.world.owners))).clone();
+    // per-zone knobs: (allow_update, AXFR policy, TSIG keys configured)
+    let (allow_update, axfr, keys) = FU_POLICIES[policy];
+    let mut h = SqliteZoneHandler::<TokioRuntimeProvider>::new(
+        build_zone(&spec_z, &w.world.owners),
+        match axfr {
+            0 => AxfrPolicy::Deny,
+            1 => AxfrPolicy::AllowAll,
+            _ => AxfrPolicy::AllowSigned,
+        },
+        allow_update,
+        false,
+    );
+    if keys {
+        h.set_tsig_signers(vec![fu_signer("k1.", FU_KEY1)]);
+    }
+    let az = w.zones.entry((spec_az.origin, false, false, false)).or_insert_with(|| Arc::new(build_zone(&spec_az, &w.world.owners))).clone();
     let mut catalog = Catalog::new();
     catalog.upsert(LowerName::new(&Name::from_str("z.").unwrap()), vec![Arc::new(h)]);
     catalog.upsert(LowerName::new(&Name::from_str("a.z.").unwrap()), vec![az]);
@@ -1155,11 +1254,15 @@ fn build_fu_srv(w: &mut Worker, acl: usize) -> Srv {
     );
     let cfg = fd::Config {
         zones: vec![labels_of("z."), labels_of("a.z.")],
+        unjudged: vec![false, false],
         deny: ac.deny.iter().map(|s| fd::Net::parse(s)).collect(),
         allow: ac.allow.iter().map(|s| fd::Net::parse(s)).collect(),
     };
     Srv { server, cfg, src: ac.src.parse().unwrap(), probe_base: vec![] }
 }
+
+/// (allow_update, AXFR policy 0 deny / 1 allow all / 2 allow signed, TSIG key configured)
+const FU_POLICIES: [(bool, u8, bool); 4] = [(true, 2, true), (false, 0, true), (true, 1, false), (false, 2, false)];
 
 const FU_KINDS: [&str; 12] = [
     "UPDATE z.: add n.z. TXT zone=z.",
@@ -1241,12 +1344,14 @@ struct FuCase {
     edns: usize,
     acl: usize,
     tcp: bool,
+    policy: usize,
 }
 
 fn fu_json(c: &FuCase, req: Option<&[u8]>, out: Option<&[Vec<u8>]>) -> Value {
     json!({
         "family": "FU",
-        "fu": {"kind": c.kind, "sign": c.sign, "id": c.id, "edns": c.edns},
+        "fu": {"kind": c.kind, "sign": c.sign, "id": c.id, "edns": c.edns, "policy": c.policy},
+        "policy_what (allow_update, axfr 0 deny/1 all/2 signed, key configured)": format!("{:?}", FU_POLICIES[c.policy]),
         "kind_what": FU_KINDS[c.kind], "sign_what": FU_SIGN[c.sign], "edns_what": EDNS_NAMES[c.edns],
         "acl": c.acl, "acl_what": acls()[c.acl].what, "src": acls()[c.acl].src,
         "proto": if c.tcp { "tcp" } else { "udp" },
@@ -1257,7 +1362,7 @@ fn fu_json(c: &FuCase, req: Option<&[u8]>, out: Option<&[Vec<u8>]>) -> Value {
 
 fn run_fu(w: &mut Worker, c: &FuCase, l: &mut Local) {
     l.eval();
-    let srv = build_fu_srv(w, c.acl);
+    let srv = build_fu_srv(w, c.acl, c.policy);
     let req = fu_sign(&fu_unsigned(c.kind, c.id, c.edns), c.sign);
     let proto = if c.tcp { Protocol::Tcp } else { Protocol::Udp };
     l.nontrivial(fnv64(format!("{c:?}").as_bytes()));
@@ -1296,12 +1401,163 @@ fn run_fu(w: &mut Worker, c: &FuCase, l: &mut Local) {
                         j
                     });
                 }
-                if what != "probe" && accepted && (c.kind == 0 || c.kind == 9) {
+                if what != "probe" && accepted && c.policy == 0 && (c.kind == 0 || c.kind == 9) {
                     let served = out.first().map(|r| r.len() >= 12 && u16::from_be_bytes([r[6], r[7]]) >= 1).unwrap_or(false);
                     l.outcome(if served { "fu:accepted-update-is-served" } else { "obs:accepted-update-not-served" });
                 }
             }
             Err(p) => l.violation(&format!("after-update:panic:{}", vcore::short_loc(&p.loc)), &p.msg, || fu_json(c, Some(&req), None)),
+        }
+    }
+}
+
+// ------------------------------------------------------------------------------------------
+// FC: the catalog is modified (upsert / replace / remove) between requests
+
+/// A catalog that can be modified while the server owns it (what an embedding application does
+/// with a lock around its `Catalog`).
+struct SharedCatalog(Arc<tokio::sync::RwLock<Catalog>>);
+
+#[async_trait::async_trait]
+impl hickory_server::server::RequestHandler for SharedCatalog {
+    async fn handle_request<R: hickory_server::server::ResponseHandler, T: hickory_net::runtime::Time>(
+        &self,
+        request: &hickory_server::server::Request,
+        response_handle: R,
+    ) {
+        self.0.read().await.handle_request::<R, T>(request, response_handle).await
+    }
+}
+
+/// (what, origin as passed to the catalog, Some(generation) = upsert / None = remove)
+const FC_MUTATIONS: [(&str, &str, Option<u32>); 10] = [
+    ("upsert a.z. (generation 1)", "a.z.", Some(1)),
+    ("upsert a.z. (generation 2)", "a.z.", Some(2)),
+    ("remove a.z.", "a.z.", None),
+    ("upsert a.a.z.", "a.a.z.", Some(1)),
+    ("remove a.a.z.", "a.a.z.", None),
+    ("upsert z. (generation 2)", "z.", Some(2)),
+    ("remove z.", "z.", None),
+    ("upsert A.Z. (upper case key, generation 2)", "A.Z.", Some(2)),
+    ("upsert . (generation 1)", ".", Some(1)),
+    ("remove .", ".", None),
+];
+const FC_STARTS: [&[&str]; 3] = [&["z."], &["z.", "a.z."], &[]];
+const FC_QUERIES: [&str; 6] = ["x.a.z.", "a.z.", "x.z.", "x.a.a.z.", "o.", "q.a.z."];
+
+fn fc_json(start: usize, muts: &[usize], step: usize, req: Option<&[u8]>, out: Option<&[Vec<u8>]>) -> Value {
+    json!({
+        "family": "FC",
+        "fc": {"start": start, "mutations": muts},
+        "start_catalog": FC_STARTS[start],
+        "mutations_what": muts.iter().map(|m| FC_MUTATIONS[*m].0).collect::<Vec<_>>(),
+        "queried_after_mutation_number": step,
+        "request": req.map(hex::enc),
+        "responses": out.map(|o| o.iter().map(|r| hex::enc(r)).collect::<Vec<_>>()),
+    })
+}
+
+/// The generation the zone data in a response shows: `gen=<n>` second TXT string, else the SOA
+/// serial, else None.
+fn shown_generation(r: &[u8], v: &RespView) -> Option<u32> {
+    for rec in &v.records[..v.n_ans_auth] {
+        let rd = &r[rec.rdata_start..rec.rdata_end];
+        match rec.rtype {
+            16 if rd.len() > 6 && &rd[1..6] == b"zone=" => {
+                let first = 1 + rd[0] as usize;
+                if rd.len() > first + 5 && &rd[first + 1..first + 5] == b"gen=" {
+                    return String::from_utf8_lossy(&rd[first + 5..]).parse().ok();
+                }
+                return Some(1);
+            }
+            6 => {
+                let m = fd::read_name(r, rec.rdata_start).ok()?;
+                let rn = fd::read_name(r, m.next).ok()?;
+                return Some(u32::from_be_bytes([r[rn.next], r[rn.next + 1], r[rn.next + 2], r[rn.next + 3]]));
+            }
+            _ => {}
+        }
+    }
+    None
+}
+
+/// One history: start catalog, then the mutations one by one; all FC_QUERIES after the start and
+/// after every mutation, judged against the catalog as it is at that moment.
+fn run_fc(w: &mut Worker, start: usize, muts: &[usize], l: &mut Local) {
+    let src: SocketAddr = V4.parse().unwrap();
+    let mut model: std::collections::BTreeMap<String, u32> = FC_STARTS[start].iter().map(|z| (z.to_string(), 1)).collect();
+    let zone_of = |w: &mut Worker, origin: &str, gen: u32| -> Arc<dyn ZoneHandler> {
+        // the zone object is keyed by the lower-case origin, whatever case the catalog key is given in
+        let lower: &'static str = match origin.to_ascii_lowercase().as_str() {
+            "z." => "z.",
+            "a.z." => "a.z.",
+            "a.a.z." => "a.a.z.",
+            _ => ".",
+        };
+        if gen == 1 {
+            w.zones.entry((lower, false, false, false)).or_insert_with(|| Arc::new(build_zone(&z(lower), &w.world.owners))).clone()
+        } else {
+            Arc::new(build_zone_gen(&z(lower), &w.world.owners, gen))
+        }
+    };
+    let mut catalog = Catalog::new();
+    for z0 in FC_STARTS[start] {
+        let h = zone_of(w, z0, 1);
+        catalog.upsert(LowerName::new(&Name::from_str(z0).unwrap()), vec![h]);
+    }
+    let shared = Arc::new(tokio::sync::RwLock::new(catalog));
+    let server = Server::with_access(SharedCatalog(shared.clone()), Vec::<ipnet::IpNet>::new(), Vec::<ipnet::IpNet>::new());
+    for step in 0..=muts.len() {
+        if step > 0 {
+            let (_, origin, gen) = FC_MUTATIONS[muts[step - 1]];
+            let key = LowerName::new(&Name::from_str(origin).unwrap());
+            match gen {
+                Some(g) => {
+                    let h = zone_of(w, origin, g);
+                    w.rt.block_on(async { shared.write().await.upsert(key, vec![h]) });
+                    model.insert(origin.to_ascii_lowercase(), g);
+                }
+                None => {
+                    w.rt.block_on(async { shared.write().await.remove(&key) });
+                    model.remove(&origin.to_ascii_lowercase());
+                }
+            }
+        }
+        let cfg = fd::Config {
+            zones: model.keys().map(|z| labels_of(z)).collect(),
+            unjudged: model.keys().map(|_| false).collect(),
+            deny: vec![],
+            allow: vec![],
+        };
+        let gens: Vec<u32> = model.values().copied().collect();
+        for (qi, q) in FC_QUERIES.iter().enumerate() {
+            l.eval();
+            let req = build_request(0x0fc0 + qi as u16, 0x0100, &name_wire(q), if qi == 5 { 1 } else { 16 }, 1, 0);
+            l.nontrivial(fnv64(&req) ^ fnv64(format!("{start}{muts:?}{step}").as_bytes()));
+            match exec_on(&w.rt, &server, src, &req, Protocol::Udp) {
+                Ok(out) => {
+                    if let Some(f) = judge(&cfg, src, &req, &out, l) {
+                        l.violation(&format!("catalog-mutation:{}", f.key), &f.what, || fc_json(start, muts, step, Some(&req), Some(&out)));
+                        continue;
+                    }
+                    let e = fd::expect(&cfg, src.ip(), &req);
+                    if let (Some(zi), Some(r)) = (e.zone, out.first()) {
+                        let v = view_response(r);
+                        if let Some(g) = shown_generation(r, &v) {
+                            if g != gens[zi] {
+                                l.violation(
+                                    "catalog-mutation:stale-zone-content",
+                                    &format!("answered with generation {g} of the zone, the catalog holds generation {}", gens[zi]),
+                                    || fc_json(start, muts, step, Some(&req), Some(&out)),
+                                );
+                            } else {
+                                l.outcome("checked:catalog-generation");
+                            }
+                        }
+                    }
+                }
+                Err(p) => l.violation(&format!("panic:{}", vcore::short_loc(&p.loc)), &p.msg, || fc_json(start, muts, step, Some(&req), None)),
+            }
         }
     }
 }
@@ -1528,6 +1784,12 @@ fn main() {
 
     if let Some((_key, case)) = ctx.replay_case() {
         let mut w = Worker::new(&world);
+        if case["fc"].is_object() {
+            let start = case["fc"]["start"].as_u64().unwrap() as usize;
+            let muts: Vec<usize> = case["fc"]["mutations"].as_array().unwrap().iter().map(|x| x.as_u64().unwrap() as usize).collect();
+            ctx.with_local(|l| run_fc(&mut w, start, &muts, l));
+            ctx.finish(false);
+        }
         if case["fu"].is_object() {
             let c = FuCase {
                 kind: case["fu"]["kind"].as_u64().unwrap() as usize,
@@ -1536,6 +1798,7 @@ fn main() {
                 edns: case["fu"]["edns"].as_u64().unwrap() as usize,
                 acl: case["acl"].as_u64().unwrap() as usize,
                 tcp: case["proto"].as_str() == Some("tcp"),
+                policy: case["fu"]["policy"].as_u64().unwrap_or(0) as usize,
             };
             ctx.with_local(|l| run_fu(&mut w, &c, l));
             ctx.finish(false);
@@ -1711,7 +1974,7 @@ fn main() {
         let ids: [u16; 2] = [0x0001, 0xffff];
         let edns: [usize; 3] = [0, 1, 2];
         let acls_fu: [usize; 3] = [0, 1, 4];
-        let od = Odometer::new(&[FU_SIGN.len() as u64, FU_KINDS.len() as u64, 2, 3, 3, 2]);
+        let od = Odometer::new(&[FU_SIGN.len() as u64, FU_KINDS.len() as u64, 2, 3, 3, 2, FU_POLICIES.len() as u64]);
         let n = od.space();
         ctx.set("FU_updatable_zone_cases", json!(n));
         ctx.set("FU_kinds", json!(FU_KINDS));
@@ -1729,6 +1992,7 @@ fn main() {
                     edns: edns[d[3] as usize],
                     acl: acls_fu[d[4] as usize],
                     tcp: d[5] == 1,
+                    policy: d[6] as usize,
                 };
                 run_fu(w, &c, l);
                 if i % 211 == 0 {
@@ -1742,6 +2006,159 @@ fn main() {
     }
 
     fam_mark("FU");
+
+    // ---- FX: the response cannot be delivered (the receiving side of the stream handle is gone) --
+    // every request kind of the interleaving alphabet x 3 configurations x UDP/TCP: nothing to
+    // judge about a response, but the handler must not panic and must keep serving (probe)
+    {
+        let reqs = fi_requests();
+        let places = place_list(&[1, 5, 6], &[0, 1], &[false, true]);
+        let n = (reqs.len() * places.len()) as u64;
+        ctx.set("FX_undeliverable_response_cases", json!(n));
+        ctx.par_run_init(
+            n,
+            4,
+            |_| Worker::new(&world),
+            |i, l, w| {
+                let u = rotate(i, n, seed) as usize;
+                let (_, req) = &reqs[u / places.len()];
+                let pl = places[u % places.len()];
+                // make sure the server object exists (baseline probe recorded)
+                run_one(w, "FX-warmup", pl, &w.probe.clone(), l);
+                let slot = pl.shape * acls().len() + pl.acl;
+                let srv = w.servers.get(&slot).unwrap();
+                l.eval();
+                let src = srv.src;
+                let res = catch(|| {
+                    w.rt.block_on(async {
+                        let (handle, rx) = BufDnsStreamHandle::new(src);
+                        drop(rx);
+                        srv.server
+                            .verif_handle_raw_request(SerialMessage::new(req.clone(), src), if pl.tcp { Protocol::Tcp } else { Protocol::Udp }, handle)
+                            .await;
+                    })
+                });
+                match res {
+                    Ok(()) => l.outcome("checked:undeliverable-response-survived"),
+                    Err(p) => l.violation(&format!("panic:{}", vcore::short_loc(&p.loc)), &format!("handler panicked when the response could not be delivered: {}", p.msg), || {
+                        case_json("FX", pl, req, None)
+                    }),
+                }
+                match exec(&w.rt, srv, &w.probe, Protocol::Udp) {
+                    Ok(out) if out == srv.probe_base => l.outcome("checked:probe"),
+                    Ok(out) => l.violation("probe:answer-changed-after-request", &format!("probe answered differently after an undeliverable response ({} response(s))", out.len()), || {
+                        case_json("FX", pl, req, None)
+                    }),
+                    Err(p) => l.violation(&format!("probe:panic:{}", vcore::short_loc(&p.loc)), &p.msg, || case_json("FX", pl, req, None)),
+                }
+            },
+        );
+    }
+
+    fam_mark("FX");
+
+    // ---- FC: the catalog changes between requests --------------------------------------------
+    // every sequence of <= 2 (thorough 3) catalog mutations from 10 (upsert new / replace by
+    // another generation / remove, incl. an upper-case key and the root) on 3 start catalogs; 6
+    // queries after the start and after every mutation
+    {
+        let maxlen = if thorough { 3 } else { 2 };
+        let nm = FC_MUTATIONS.len();
+        let mut seqs: Vec<Vec<usize>> = vec![vec![]];
+        let mut last: Vec<Vec<usize>> = vec![vec![]];
+        for _ in 0..maxlen {
+            let mut next = vec![];
+            for sq in &last {
+                for m in 0..nm {
+                    let mut t = sq.clone();
+                    t.push(m);
+                    next.push(t);
+                }
+            }
+            seqs.extend(next.iter().cloned());
+            last = next;
+        }
+        let n = (seqs.len() * FC_STARTS.len()) as u64;
+        ctx.set("FC_catalog_mutation_histories", json!(n));
+        ctx.set("FC_mutations", json!(FC_MUTATIONS.iter().map(|m| m.0).collect::<Vec<_>>()));
+        ctx.par_run_init(
+            n,
+            4,
+            |_| Worker::new(&world),
+            |i, l, w| {
+                let u = rotate(i, n, seed) as usize;
+                run_fc(w, u % FC_STARTS.len(), &seqs[u / FC_STARTS.len()], l);
+                if i % 101 == 0 {
+                    l.sample(fc_json(u % FC_STARTS.len(), &seqs[u / FC_STARTS.len()], 0, None, None));
+                }
+            },
+        );
+    }
+
+    fam_mark("FC");
+
+    // ---- FT: TSIG / SIG(0) records in every position (C13 judges their meaning; here: one
+    // response, id, QR, question, and the statement's gates) ---------------------------------------
+    {
+        let n = |s: &str| name_wire(s);
+        let tsig = {
+            let mut rd = n("hmac-sha256.");
+            rd.extend([0, 0, 0x65, 0x53, 0xf1, 0x00, 1, 44]);
+            rd.extend([0, 4, 1, 2, 3, 4]);
+            rd.extend([0x0f, 0x70, 0, 0, 0, 0]);
+            rr(&n("key."), 250, 255, 0, &rd)
+        };
+        let tsig_empty = rr(&n("key."), 250, 255, 0, &[]);
+        let sig0 = {
+            // type covered 0, algorithm 13, labels 0, original TTL 0, expiration, inception, tag, signer ".", signature
+            let mut rd = vec![0, 0, 13, 0, 0, 0, 0, 0, 0x66, 0, 0, 0, 0x65, 0, 0, 0, 0x12, 0x34, 0];
+            rd.extend([0xab; 64]);
+            rr(&[0], 24, 255, 0, &rd)
+        };
+        let a_rr = rr(&[0xc0, 0x0c], 1, 1, 1, &[192, 0, 2, 9]);
+        let opt0 = opt_rr(1232, 0, 0, false, &[]);
+        let opt1 = opt_rr(1232, 0, 1, false, &[]);
+        // (what, answer records, authority records, additional records)
+        let cat = |parts: &[&Vec<u8>]| parts.iter().flat_map(|p| p.iter().copied()).collect::<Vec<u8>>();
+        let variants: Vec<(&'static str, (u16, Vec<u8>), (u16, Vec<u8>), (u16, Vec<u8>))> = vec![
+            ("TSIG last in additional", (0, vec![]), (0, vec![]), (1, tsig.clone())),
+            ("TSIG followed by an A record", (0, vec![]), (0, vec![]), (2, cat(&[&tsig, &a_rr]))),
+            ("TSIG in the answer section", (1, tsig.clone()), (0, vec![]), (0, vec![])),
+            ("TSIG in the authority section", (0, vec![]), (1, tsig.clone()), (0, vec![])),
+            ("two TSIGs", (0, vec![]), (0, vec![]), (2, cat(&[&tsig, &tsig]))),
+            ("OPT then TSIG", (0, vec![]), (0, vec![]), (2, cat(&[&opt0, &tsig]))),
+            ("TSIG then OPT", (0, vec![]), (0, vec![]), (2, cat(&[&tsig, &opt0]))),
+            ("OPT v1 then TSIG", (0, vec![]), (0, vec![]), (2, cat(&[&opt1, &tsig]))),
+            ("TSIG with empty RDATA", (0, vec![]), (0, vec![]), (1, tsig_empty.clone())),
+            ("SIG(0) last in additional", (0, vec![]), (0, vec![]), (1, sig0.clone())),
+            ("SIG(0) in the answer section", (1, sig0.clone()), (0, vec![]), (0, vec![])),
+            ("A record then SIG(0) then TSIG", (0, vec![]), (0, vec![]), (3, cat(&[&a_rr, &sig0, &tsig]))),
+        ];
+        let heads: [u16; 4] = [0x0100, 0x2800, 0x2000, 0x4800];
+        let qnames = [n("x.a.z."), n("o.")];
+        let places = place_list(&[1, 5, 10], &[0, 1], &[false, true]);
+        let od = Odometer::new(&[variants.len() as u64, 4, 2, places.len() as u64]);
+        let cases = od.space();
+        ctx.set("FT_signature_record_placement_cases", json!(cases));
+        ctx.set("FT_variants", json!(variants.iter().map(|v| v.0).collect::<Vec<_>>()));
+        ctx.par_run_init(
+            cases,
+            16,
+            |_| Worker::new(&world),
+            |i, l, w| {
+                let d = od.get(rotate(i, cases, seed));
+                let (_, an, ns, ar) = &variants[d[0] as usize];
+                let mut m = hdr(0x0f70, heads[d[1] as usize], [1, an.0, ns.0, ar.0]);
+                m.extend(question(&qnames[d[2] as usize], if d[1] == 1 { 6 } else { 16 }, 1));
+                m.extend(&an.1);
+                m.extend(&ns.1);
+                m.extend(&ar.1);
+                run_one(w, "FT", places[d[3] as usize], &m, l);
+            },
+        );
+    }
+
+    fam_mark("FT");
 
     // ---- FE: EDNS option bodies at every length boundary x EDNS version ------------------------
     // (a) OPT RDATA = EVERY string of length <= 3 (thorough 4) over S + {08, 0a};
@@ -1984,11 +2401,14 @@ fn main() {
     {
         let mut names: Vec<Vec<u8>> = world.qn.iter().map(|q| q.wire.clone()).collect();
         names.extend(sys_names(&LABELS_QUICK));
-        let qtypes: [u16; 7] = [16, 1, 6, 2, 252, 251, 255];
-        let edns: [usize; 3] = [0, 1, 9];
+        let qtypes: Vec<u16> = if thorough { vec![16, 1, 6, 2, 252, 251, 255] } else { vec![16, 6, 252, 255] };
+        let edns: Vec<usize> = if thorough { vec![0, 1, 9, 7] } else { vec![0, 9, 7] };
         let acls_fs: [usize; 3] = [0, 1, 4];
+        // (opcode, RD): queries with and without recursion desired (a forwarder-type zone refuses
+        // RD=0), UPDATE and NOTIFY against every deviating zone kind
+        let heads: [u16; 4] = [0x0100, 0x0000, 0x2800, 0x2000];
         let nfs = (SHAPES.len() - N_BASE_SHAPES) as u64;
-        let od = Odometer::new(&[3, 7, names.len() as u64, 2, 3, nfs]);
+        let od = Odometer::new(&[edns.len() as u64, qtypes.len() as u64, names.len() as u64, 2, 3, nfs, 4]);
         let n = od.space();
         ctx.set("FS_deviating_shape_cases", json!(n));
         ctx.par_run_init(
@@ -1998,7 +2418,7 @@ fn main() {
             |i, l, w| {
                 let d = od.get(rotate(i, n, seed));
                 let pl = Place { shape: N_BASE_SHAPES + d[5] as usize, acl: acls_fs[d[4] as usize], tcp: d[3] == 1 };
-                let req = build_request(0x0f50, 0x0100, &names[d[2] as usize], qtypes[d[1] as usize], 1, edns[d[0] as usize]);
+                let req = build_request(0x0f50, heads[d[6] as usize], &names[d[2] as usize], qtypes[d[1] as usize], 1, edns[d[0] as usize]);
                 run_one(w, "FS", pl, &req, l);
                 if i % 50_021 == 0 {
                     l.sample(case_json("FS", pl, &req, None));
@@ -2339,6 +2759,7 @@ fn main() {
         "checked:zone",
         "checked:probe",
         "checked:interleaved-equals-alone",
+        "checked:catalog-generation",
     ] {
         if ctx.outcome_count(class) == 0 {
             ctx.machinery_failure(&format!("vacuous run: outcome class {class} was never exercised"));
